@@ -16,6 +16,9 @@ C06  Optimisers return feasible solutions with truthful objective values  (struc
 """
 import ast
 
+from sa.ctorflow import wire
+
+
 from sa.astutil import canon_text, oriented, dump, where, kwargs_of, walk_no_nested, is_const, field_of
 from sa.model import AnalysisError, body_nodoc, ClassInfo
 from sa.order import enumerate_paths, Event, names
@@ -901,12 +904,46 @@ def check_bridge(prog, rep):
                 rep.unrec(R, f.qualname, "reported value %s not modelled" % dump(dc.value)[:50])
 
 
+def check_bound_sync(prog, rep):
+    """R10-bounds: pymoo samples, repairs and clips with the problem's `xl` / `xu`; the library's own `decn_space_lower` / `decn_space_upper` are what the
+    solution is judged against.  Every setter of a bound in pybrops.opt.prob stores the value it is given in both places (sibling agreement: Problem, Real, Integer
+    and Binary problems all do), so a bound changed after construction is the bound the optimiser respects."""
+    n = 0
+    for m in sorted(prog.modules.values(), key=lambda m_: m_.name):
+        if not m.name.startswith("pybrops.opt.prob."):
+            continue
+        for c in m.classes.values():
+            for pname, twin in (("decn_space_lower", "_xl"), ("decn_space_upper", "_xu")):
+                P = c.own_props.get(pname)
+                f = P.setter if P is not None else None
+                if f is None:
+                    continue
+                rep.saw(f)
+                n += 1
+                construct = "%s.%s.setter" % (c.qualname, pname)
+                st_own = [x for x in walk_no_nested(f.node) if isinstance(x, ast.Assign) and any(dump(t) == "self._" + pname for t in x.targets)]
+                st_twin = [x for x in walk_no_nested(f.node) if isinstance(x, ast.Assign) and any(dump(t) in ("self." + twin, "self." + twin[1:]) for t in x.targets)]
+                if len(st_own) != 1:
+                    rep.unrec("R10-bounds", construct, "expected one store of self._%s" % pname)
+                    continue
+                if not st_twin:
+                    rep.violate("R10-bounds", construct, "the setter stores self._%s but not pymoo's self.%s: a bound assigned after construction is not the bound the optimiser samples "
+                                "and repairs with (decisions outside the declared bounds)" % (pname, twin), where(f, st_own[0]), "self.%s = value" % twin, "absent")
+                    continue
+                if len(st_twin) != 1 or dump(st_twin[0].value) != dump(st_own[0].value):
+                    rep.violate("R10-bounds", construct, "self.%s receives %s while self._%s receives %s: the optimiser and the problem disagree on the bound"
+                                % (twin, dump(st_twin[0].value)[:40], pname, dump(st_own[0].value)[:40]), where(f, st_twin[0]), dump(st_own[0].value)[:40], dump(st_twin[0].value)[:40])
+                    continue
+                rep.ok("R10-bounds", construct, "bound stored for the library (self._%s) and for pymoo (self.%s) alike" % (pname, twin))
+    return n
+
+
 def run(prog, rep, tier):
     rep.explanation = ("Keyword/source agreement for every Solution assembly in pybrops.opt.algo, a path rule over the exchange scan of the two hill-climbers "
                        "(swap/evaluate/accept/undo pairing, truthful incumbent values, termination), creation-without-replacement and mask rules for the subset "
                        "operators, alias (view vs copy) classification of arrays edited in place, and the sorting optimiser's pipeline.")
     rep.not_decided = ["feasibility / non-domination / optimality of what pymoo returns (runtime search)", "brute-force optimality for separable problems (follows from R6 only for separable objectives)"]
-    for r, n in (("R1-assembly", 15), ("R2-truthful", 2), ("R3-swaps", 2), ("R4-subsets", 6), ("R5-problem", 4), ("R6-sorting", 2), ("R7-integer", 2), ("R8-bridge", 8)):
+    for r, n in (("R1-assembly", 15), ("R2-truthful", 2), ("R3-swaps", 2), ("R4-subsets", 6), ("R5-problem", 4), ("R6-sorting", 2), ("R7-integer", 2), ("R8-bridge", 8), ("R10-bounds", 8)):
         rep.floor(r, n)
     check_assembly(prog, rep)
     for mod, cname in HILL:
@@ -914,3 +951,5 @@ def run(prog, rep, tier):
     check_sorting(prog, rep)
     check_operators(prog, rep)
     check_bridge(prog, rep)
+    check_bound_sync(prog, rep)
+    wire(prog, rep, "C06", 4, 260)
